@@ -599,3 +599,156 @@ def h_socket_blocking(side: int, tsel: int, eintr: int) -> bool:
     if mod.detached != [True]:
         return fail('C13:socket:connection-made-over-a-non-blocking-socket')
     return True
+
+
+# ---------------------------------------------------------------------------
+# "from any bytes-like object": buffers that are not plain byte strings - items wider than a byte (array('h'), array('i')), a
+# two-dimensional byte view, a read-only view of a slice.  Offsets, sizes and message lengths are byte counts (solver-chosen); the
+# oracle works on the bytes of the object (memoryview.tobytes()).
+
+import array as _array
+
+BK = ('bytearray', 'memoryview', 'array-h', 'array-i', '2d-bytes')
+
+
+def _mkbuf(kind, nbytes, fill=None):
+    """a buffer of the given kind holding at least nbytes bytes (rounded up to whole items); returns (object, its byte length)"""
+    if kind == 0:
+        b = bytearray(fill * nbytes if fill else bytes(range(65, 65 + nbytes)))
+    elif kind == 1:
+        b = memoryview(bytearray(fill * nbytes if fill else bytes(range(65, 65 + nbytes))))
+    elif kind in (2, 3):
+        item = 2 if kind == 2 else 4
+        total = -(-nbytes // item) * item
+        b = _array.array('h' if kind == 2 else 'i')
+        b.frombytes(fill * total if fill else bytes(range(65, 65 + total)))
+    else:
+        total = -(-nbytes // 2) * 2
+        raw = bytearray(fill * total if fill else bytes(range(65, 65 + total)))
+        b = memoryview(raw).cast('B', (2, total // 2)) if total else memoryview(raw)
+    return b, memoryview(b).nbytes
+
+
+def _send_kinds(code, want):
+    nd = NDCode(code)
+    kind = PART % 5 if NPART > 1 else nd.draw(0, 4)
+    nbytes = nd.draw(0, 4)
+    use_size = nd.flag()
+    offset = nd.draw(-1, 5)
+    size = nd.draw(-1, 5) if use_size else 0
+    with untraced():
+        buf, B = _mkbuf(kind, nbytes)
+        raw = memoryview(buf).tobytes()
+    pipe = WPipe([0] * 8, 0)
+    tx = _conn(False, True, wpipe=pipe)
+    try:
+        sz = size if use_size else None
+        eff = sz if use_size else B - offset
+        valid = 0 <= offset <= B and (not use_size or (sz >= 0 and offset + sz <= B))
+        try:
+            with untraced():
+                tx.send_bytes(buf, offset, sz)
+        except ValueError:
+            if valid:
+                return fail('C13:send:valid-arguments-rejected:' + BK[kind])
+            if pipe.calls:
+                return fail('C13:send:io-before-rejecting-arguments:' + BK[kind])
+            return True
+        if not valid:
+            return fail('C13:send:invalid-offset-or-size-accepted:' + BK[kind])
+        if want:
+            return not (eff >= 2)
+        if pipe.data != struct.pack('!i', eff) + raw[offset:offset + eff]:
+            return fail('C13:send:wire-bytes-differ:' + BK[kind])
+        return True
+    finally:
+        _release(tx)
+
+
+def h_send_kinds(code: int) -> bool:
+    """
+    pre: 0 <= code < CODEMAX
+    post: _
+    """
+    try:
+        return _send_kinds(code, False)
+    except Prune:
+        return True
+
+
+def h_send_kinds_twin(code: int) -> bool:
+    """
+    pre: 0 <= code < CODEMAX
+    post: _
+    """
+    try:
+        return _send_kinds(code, True)
+    except Prune:
+        return True
+
+
+def _into_kinds(code, want):
+    nd = NDCode(code)
+    kind = PART % 5 if NPART > 1 else nd.draw(0, 4)
+    n = nd.draw(0, 5)                 # message length in bytes
+    bufbytes = nd.draw(0, 8)
+    offset = nd.draw(-1, 9)
+    msg = bytes(range(97, 97 + n))
+    stream = struct.pack('!i', n) + msg + struct.pack('!i', 2) + b'zz'
+    pipe = RPipe(stream, [0] * 24, 0)
+    rx = _conn(True, False, rpipe=pipe)
+    try:
+        with untraced():
+            buf, B = _mkbuf(kind, bufbytes, fill=b'.')
+        try:
+            with untraced():
+                got = rx.recv_bytes_into(buf, offset)
+        except ValueError:
+            if 0 <= offset <= B:
+                return fail('C13:into:valid-offset-rejected:' + BK[kind])
+            if pipe.calls:
+                return fail('C13:into:io-before-rejecting-offset:' + BK[kind])
+            return True
+        except bc.BufferTooShort as exc:
+            if offset + n <= B:
+                return fail('C13:into:BufferTooShort-although-it-fits:' + BK[kind])
+            if exc.args[0] != msg:
+                return fail('C13:into:BufferTooShort-does-not-carry-the-message:' + BK[kind])
+            if memoryview(buf).tobytes() != b'.' * B:
+                return fail('C13:into:buffer-modified-on-BufferTooShort:' + BK[kind])
+            return True
+        if not (0 <= offset <= B):
+            return fail('C13:into:invalid-offset-accepted:' + BK[kind])
+        if offset + n > B:
+            return fail('C13:into:overflowing-message-accepted:' + BK[kind])
+        if want:
+            return not (n >= 3 and offset >= 1)
+        if got != n or memoryview(buf).tobytes() != b'.' * offset + msg + b'.' * (B - offset - n):
+            return fail('C13:into:message-not-stored-as-received:' + BK[kind])
+        if rx.recv_bytes() != b'zz':
+            return fail('C13:into:next-message-altered:' + BK[kind])
+        return True
+    finally:
+        _release(rx)
+
+
+def h_into_kinds(code: int) -> bool:
+    """
+    pre: 0 <= code < CODEMAX
+    post: _
+    """
+    try:
+        return _into_kinds(code, False)
+    except Prune:
+        return True
+
+
+def h_into_kinds_twin(code: int) -> bool:
+    """
+    pre: 0 <= code < CODEMAX
+    post: _
+    """
+    try:
+        return _into_kinds(code, True)
+    except Prune:
+        return True
